@@ -16,6 +16,7 @@ from analysis import cfg, atoms as A, preach
 from analysis.ir import callee_path, op_const, op_place, AnchorMissing
 from analysis.prov import prov_of, prov_assuming, show, strip, leaves, subterms
 from analysis.match import is_param, is_call, const_val, const_name, sh, mentions, call_args, fail_conditions
+from rules.common import as_min
 
 SM = "math::swap_math::"
 TM = "math::token_math::"
@@ -350,9 +351,18 @@ def R4_fee_and_amounts(run):
     f = _step_fields(fn, {"amount_specified_is_input": False})
     run.check("R4", "exact-out.amount_in", all(_is_unfixed(x) for x in leaves(f["amount_in"])), "exact-out: amount_in is not the unfixed-side delta: %s" % sh(f["amount_in"]),
               loc=fn.loc(), detail="amount_in := unfixed delta")
+    has_min = False
     for ab in (False, True):
         fo = _step_fields(fn, {"amount_specified_is_input": False, "a_to_b": ab})
-        outs = leaves(fo["amount_out"])
+        outs = []
+        for x in leaves(fo["amount_out"]):
+            m = as_min(x)     # `fixed.min(amount_remaining)`: the cap written as a minimum
+            if m:
+                has_min = True
+                for y in m:
+                    outs.extend(leaves(y))
+            else:
+                outs.append(x)
         cap = [x for x in outs if is_param(x, "amount_remaining")]
         fixed = [x for x in outs if _is_fixed(x)]
         run.check("R4", "exact-out.amount_out[a_to_b=%d]" % ab, len(cap) == 1 and fixed and len(cap) + len(fixed) == len(outs),
@@ -375,7 +385,7 @@ def R4_fee_and_amounts(run):
             if is_param(y, "amount_remaining") and any(_is_fixed(l) for l in leaves(strip(x))):
                 # the true side performs the cap assignment
                 capok = True
-    run.check("R4", "exact-out.cap-guard", capok, "the exact-out cap is not guarded by amount_out > amount_remaining", loc=fn.loc(), detail="amount_out > amount_remaining => amount_out := amount_remaining")
+    run.check("R4", "exact-out.cap-guard", capok or has_min, "the exact-out cap is not guarded by amount_out > amount_remaining", loc=fn.loc(), detail="amount_out > amount_remaining => amount_out := amount_remaining")
     # next price: target when the fixed amount fits, else computed
     f2 = _step_fields(fn, {})
     np = leaves(f2["next_price"])
